@@ -34,7 +34,7 @@ LEVEL_NOTE = ("Trusted: Lean kernel; the hand-written model of h11's reader (val
               "final_head_delivered: status line, header lines in canonical `name: value` form, end of head) and the model's own rendering is "
               "applied to the implementation on every run. Every legal spelling of a header line (any run of spaces / tabs after the colon and "
               "after the value) is covered too (parse_head_roundtrip_spelled). Partial: obsolete line folding and chunk extensions are validated by the differential against generator ground truth, not proved; HTTP/2 DATA delivery is checked against the real h2 peer at event level (framing/HPACK trusted).")
-TECHNIQUE = "Lean 4 proof (generic incremental-extractor theorem instantiated with the h11 reader model) + differential execution"
+TECHNIQUE = "Lean 4 proof (generic incremental-extractor theorem instantiated with the h11 reader model; render/parse round trip of the response head for every legal spelling) + differential execution (generator ground truth and model-rendered heads)"
 DESIGN_REF = "§5 C02"
 
 
